@@ -513,6 +513,8 @@ def _harness(ctx, cfg):
             ctx.oblige("C11.history_unchanged", S.same_history(S0, S1), "C11")
             ctx.oblige("C11.segmentation_unchanged", seg_same(p.seg0, seg1), "C11")
             ctx.oblige("C11.no_refresh", len(p.emitted) == 0, "C11")
+            ctx.oblige("C11.registry_unchanged", S0.feature_keys == S1.feature_keys and S0.counter == S1.counter,
+                       "C11")
         if want("C20"):
             ctx.oblige("C20.refused_emits_none", len(p.emitted) == 0, "C20")
             ctx.oblige("C20.signal_delivers_after_refusal", S.signal_delivers(p), "C20")
